@@ -37,6 +37,9 @@ structure Table where
   pos : PosKind
   errorsPass : Bool                 -- `_ArgParseTry`: error() returns instead of exiting
   allowAbbrev : Bool := true
+  /-- tokens are taken as they are: `prefix_chars == "-"` and no `fromfile_prefix_chars`
+  (argparse would replace an `@file` token — anywhere on the line — by the file's lines) -/
+  plainArgs : Bool := true
 deriving Repr, DecidableEq, Inhabited
 
 /-- all option strings in registration order, with their option -/
